@@ -7,7 +7,8 @@ from vlib import Leg
 def gen_refs(rng, tier):
     out = []
     for _ in range(c05.n_programs(tier, quick=300)):
-        ws = c05.gen_twin_workspace(rng) if rng.random() < 0.08 else c05.gen_workspace(rng)
+        k = rng.random()
+        ws = c05.gen_twin_workspace(rng) if k < 0.08 else (c05.gen_returned_local_workspace(rng) if k < 0.12 else c05.gen_workspace(rng))
         steps = c05.cursor_steps(["refs"], ws, rng)
         if rng.random() < 0.2:
             steps += c05.cursor_steps(["highlight"], ws, rng, both_ends=False)
